@@ -328,6 +328,58 @@ def run_job(job):
     return raws
 
 
+def quotient(trace):
+    """Exact reduction of a trace on a LARGE table MDP to one the model checker can read: states that only loop to
+    themselves and whose tables AND recorded data (values, policy rows, evaluation iterates at every event) are
+    identical to those of an earlier such state are dropped; everything else is kept and successor indices are
+    remapped to the representative.  Every per-state clause of the trace specifications then holds for a dropped
+    state iff it holds for its representative, and max/min aggregates (span, max difference) are unchanged by
+    duplicates.  The last state is always kept (relative value iteration reads it)."""
+    m = trace["m"]
+    ns = m["ns"]
+    per_state = [trace["v0"], trace["start"], trace["startpol"], trace.get("pol0") or [0] * ns]
+    for e in trace["ev"]:
+        per_state.append(e["v"])
+        if e["pol"]:
+            per_state.append([tuple(x) for x in e["pol"]])
+        if e["pick"]:
+            per_state.append(e["pick"])
+        for st in e["evals"]:
+            per_state += [st["old"], st["new"], st["pick"]]
+    for arr in per_state:
+        if len(arr) != ns:
+            return trace            # malformed lengths are judged on the unreduced trace
+    rep_of, seen, keep = {}, {}, []
+    for s_ in range(ns):
+        inert = all(n == s_ + 1 for row in m["next"][s_] for n in row)
+        if inert and s_ != ns - 1:
+            sig = (repr(m["rew"][s_]), repr(m["pk"][s_]), tuple(arr[s_] for arr in per_state))
+            if sig in seen:
+                rep_of[s_] = seen[sig]
+                continue
+            seen[sig] = s_
+        rep_of[s_] = s_
+        keep.append(s_)
+    new_index = {old: k for k, old in enumerate(keep)}
+
+    def sub(arr):
+        return [arr[i] for i in keep] if len(arr) == ns else arr
+
+    m2 = dict(m, ns=len(keep),
+              next=[[[new_index[rep_of[n - 1]] + 1 for n in row] for row in m["next"][i]] for i in keep],
+              rew=[m["rew"][i] for i in keep], pk=[m["pk"][i] for i in keep])
+    t2 = dict(trace, m=m2, v0=sub(trace["v0"]), start=sub(trace["start"]), startpol=sub(trace["startpol"]))
+    if "pol0" in trace:
+        t2["pol0"] = sub(trace["pol0"])
+    t2["ev"] = []
+    for e in trace["ev"]:
+        e2 = dict(e, v=sub(e["v"]), pol=sub(e["pol"]), pick=sub(e["pick"]),
+                  evals=[dict(st, old=sub(st["old"]), new=sub(st["new"]), pick=sub(st["pick"])) for st in e["evals"]])
+        t2["ev"].append(e2)
+    t2["quotient_of"] = ns
+    return t2
+
+
 def project(job, raw):
     """Project a raw recording to the integer trace TLC reads (None fields never compared)."""
     if "crash" in raw:
@@ -483,6 +535,9 @@ def project(job, raw):
             trace["pol0"] = [s[0] for s in sets]
         else:
             trace["pol0"] = [1] * ns
+    if job.get("quotient") and kind != "SAVI":
+        trace = quotient(trace)
+        return trace
     # ---- certificates (proposed here, verified by TLC)
     last = tr_events[-1]
     if job.get("cert") and complete and last["e"] == "end" and last["polok"]:
